@@ -33,6 +33,11 @@ def run(ctx):
                      "L = declared length), FilteredOut carries L - header length, A+L >= 4 (strict suffix); dlt_consume_msg returns input[16+L..] and reports 16+L; "
                      "FLOW: the filter configuration reaches only filtered_out.")
     R.not_decided = ["library parsers are trusted to honour the nom contract (remainder = input minus consumed)"]
+    run_cons(ctx)
+
+
+def run_cons(ctx):
+    F, R = ctx.facts, ctx.report
     b = F.body(FN)
     if b is None or F.body(CONSUME) is None:
         R.violation("ANCHOR", "missing|" + FN, "anchor function %s / %s not found" % (FN, CONSUME), kind="ANCHOR-MISSING")
